@@ -608,22 +608,50 @@ func (x *e2Ctx) callOps(cl *ssa.Call) []*e2Node {
 				x.undecided("inlining depth exceeded at " + pos)
 				return nil
 			}
-			sub := &e2Ctx{c: x.c, fn: sf, lex: map[ssa.Value]bool{sf.Params[i]: true}, enc: x.enc, depth: x.depth + 1, subst: map[string]string{}, visited: map[*ssa.BasicBlock]int{}}
-			sub.ipdom = postDominators(sf)
-			for j, p := range sf.Params {
-				if j == i {
-					continue
+			// an argument chosen by an if/else before the call: the helper is inlined once per alternative, under that condition
+			inlineWith := func(over map[int]string) []*e2Node {
+				sub := &e2Ctx{c: x.c, fn: sf, lex: map[ssa.Value]bool{sf.Params[i]: true}, enc: x.enc, depth: x.depth + 1, subst: map[string]string{}, visited: map[*ssa.BasicBlock]int{}}
+				sub.ipdom = postDominators(sf)
+				for j, p := range sf.Params {
+					if j == i {
+						continue
+					}
+					if o, ok := over[j]; ok {
+						sub.subst[x.c.Sx().Of(p).String()] = o
+					} else if x.enc {
+						s, _ := x.srcOf(cc.Args[j])
+						sub.subst[x.c.Sx().Of(p).String()] = s
+					} else {
+						sub.subst[x.c.Sx().Of(p).String()] = x.cellOf(cc.Args[j])
+					}
 				}
-				if x.enc {
-					s, _ := x.srcOf(cc.Args[j])
-					sub.subst[x.c.Sx().Of(p).String()] = s
-				} else {
-					sub.subst[x.c.Sx().Of(p).String()] = x.cellOf(cc.Args[j])
+				ns := sub.walk(sf.Blocks[0], nil)
+				sub.resolveLocals(ns)
+				x.undec = append(x.undec, sub.undec...)
+				return ns
+			}
+			if x.enc {
+				for j := range sf.Params {
+					if j == i || j >= len(cc.Args) {
+						continue
+					}
+					s, xf := x.srcOf(cc.Args[j])
+					if cond, a, b, ok := splitDecision(s); ok && xf == "" {
+						na, nb := inlineWith(map[int]string{j: a}), inlineWith(map[int]string{j: b})
+						strip := func(ns []*e2Node) []*e2Node {
+							var out []*e2Node
+							for _, n := range e2Simplify(ns) {
+								if n.kind != "ret" {
+									out = append(out, n)
+								}
+							}
+							return out
+						}
+						return []*e2Node{{kind: "alt", a: strip(na), b: strip(nb), note: cond, pos: pos}}
+					}
 				}
 			}
-			ns := sub.walk(sf.Blocks[0], nil)
-			sub.resolveLocals(ns)
-			x.undec = append(x.undec, sub.undec...)
+			ns := inlineWith(nil)
 			// drop the callee's trailing ret
 			var out []*e2Node
 			for _, n := range e2Simplify(ns) {
@@ -1081,8 +1109,11 @@ func joinPath(a, b string) string {
 }
 
 // srcOf: field + transform class of a scalar written by an encoder
-func (x *e2Ctx) srcOf(v ssa.Value) (string, string) {
-	var xs []string
+func (x *e2Ctx) srcOf(v ssa.Value) (string, string) { return x.srcOfX(v, nil, 0) }
+
+// srcOfX: srcOf with transforms already met on the way (outermost first)
+func (x *e2Ctx) srcOfX(v ssa.Value, pre []string, depth int) (string, string) {
+	xs := append([]string{}, pre...)
 	cur := v
 	for d := 0; d < 12; d++ {
 		switch t := cur.(type) {
@@ -1145,6 +1176,39 @@ func (x *e2Ctx) srcOf(v ssa.Value) (string, string) {
 					if iff := ifOf(t.Block().Preds[0]); iff != nil || true {
 						cond := x.phiCond(t)
 						return cond, fmt.Sprintf("flag:%d/%d", k0, k1)
+					}
+				}
+			}
+			// a value chosen by an if/else before the write (v := zero; if c { v = field }; buf.Write(v)): the same
+			// decision expression as writing in the two branches, {cond}?[then : else]
+			if len(t.Edges) == 2 && depth < 2 && !inCycle(t.Block()) {
+				if d := t.Block().Idom(); d != nil {
+					if iff := ifOf(d); iff != nil && len(d.Succs) == 2 && d.Succs[0] != d.Succs[1] {
+						side := func(p *ssa.BasicBlock) int { // 0 = true side, 1 = false side, -1 unknown
+							for i := 0; i < 2; i++ {
+								s := d.Succs[i]
+								if (p == d && s == t.Block()) || (s != t.Block() && (s == p || s.Dominates(p))) {
+									return i
+								}
+							}
+							return -1
+						}
+						s0, s1 := side(t.Block().Preds[0]), side(t.Block().Preds[1])
+						if s0 >= 0 && s1 >= 0 && s0 != s1 {
+							var parts [2]string
+							for i, e := range t.Edges {
+								f, xf := x.srcOfX(e, xs, depth+1)
+								sd := s0
+								if i == 1 {
+									sd = s1
+								}
+								parts[sd] = f + tildeIf(xf)
+							}
+							if parts[0] == parts[1] {
+								return parts[0], ""
+							}
+							return "{" + x.apply(x.pathOf(iff.Cond, 0)) + "}?[" + parts[0] + " : " + parts[1] + "]", ""
+						}
 					}
 				}
 			}
@@ -2250,4 +2314,32 @@ func (x *e2Ctx) bytesHelper(f *ssa.Function, prm *ssa.Parameter) ([]*e2Node, boo
 	x.bindReturns(ns, call)
 	e2Canon(ns)
 	return ns, true
+}
+
+// splitDecision: "{cond}?[A : B]" → (cond, A, B)
+func splitDecision(s string) (string, string, string, bool) {
+	if !strings.HasPrefix(s, "{") || !strings.HasSuffix(s, "]") {
+		return "", "", "", false
+	}
+	d, end := 0, -1
+	for i := 0; i < len(s); i++ {
+		if s[i] == '{' {
+			d++
+		} else if s[i] == '}' {
+			d--
+			if d == 0 {
+				end = i
+				break
+			}
+		}
+	}
+	if end < 0 || !strings.HasPrefix(s[end+1:], "?[") {
+		return "", "", "", false
+	}
+	inner := s[end+3 : len(s)-1]
+	i := splitTop(inner, " : ")
+	if i < 0 {
+		return "", "", "", false
+	}
+	return s[1:end], inner[:i], inner[i+3:], true
 }
